@@ -58,7 +58,7 @@ theorem side_ids (p : Cell → Bool) (cells : List Cell) :
     (side p cells).map (·.2.2) = (cells.filter p).map (·.id) := by
   unfold side; rw [List.map_map]; rfl
 
-theorem Inv.queues_perm {cfg : Cfg} {g : GridB} (hi : Inv cfg g) :
+theorem Base.queues_perm {cfg : Cfg} {g : GridB} (hi : Base cfg g) :
     (qids g.external ++ qids g.internal).Perm (g.cells.map (·.id)) := by
   unfold qids
   have h1 := (hi.ext.map (·.2.2))
@@ -68,7 +68,7 @@ theorem Inv.queues_perm {cfg : Cfg} {g : GridB} (hi : Inv cfg g) :
   rw [← List.map_append]
   exact (List.filter_append_perm _ _).map _
 
-theorem Inv.ext_iff_border {cfg : Cfg} {g : GridB} (hi : Inv cfg g) {c : Cell} (hc : c ∈ g.cells) :
+theorem Base.ext_iff_border {cfg : Cfg} {g : GridB} (hi : Base cfg g) {c : Cell} (hc : c ∈ g.cells) :
     c.id ∈ qids g.external ↔ c.border = true := by
   unfold qids
   rw [(hi.ext.map (·.2.2)).mem_iff, side_ids]
@@ -80,7 +80,7 @@ theorem Inv.ext_iff_border {cfg : Cfg} {g : GridB} (hi : Inv cfg g) {c : Cell} (
     rw [← this]; exact hdb
   · intro h; exact List.mem_map.2 ⟨c, List.mem_filter.2 ⟨hc, h⟩, rfl⟩
 
-theorem Inv.int_iff_interior {cfg : Cfg} {g : GridB} (hi : Inv cfg g) {c : Cell} (hc : c ∈ g.cells) :
+theorem Base.int_iff_interior {cfg : Cfg} {g : GridB} (hi : Base cfg g) {c : Cell} (hc : c ∈ g.cells) :
     c.id ∈ qids g.internal ↔ c.border = false := by
   unfold qids
   rw [(hi.int.map (·.2.2)).mem_iff, side_ids]
@@ -91,5 +91,14 @@ theorem Inv.int_iff_interior {cfg : Cfg} {g : GridB} (hi : Inv cfg g) {c : Cell}
     have : d = c := eq_of_nodup_map (·.id) _ hi.idnd hdm hc hid
     rw [← this]; simpa using hdb
   · intro h; exact List.mem_map.2 ⟨c, List.mem_filter.2 ⟨hc, by simp [h]⟩, rfl⟩
+
+theorem Inv.queues_perm {cfg : Cfg} {g : GridB} (hi : Inv cfg g) :
+    (qids g.external ++ qids g.internal).Perm (g.cells.map (·.id)) := hi.toBase.queues_perm
+
+theorem Inv.ext_iff_border {cfg : Cfg} {g : GridB} (hi : Inv cfg g) {c : Cell} (hc : c ∈ g.cells) :
+    c.id ∈ qids g.external ↔ c.border = true := hi.toBase.ext_iff_border hc
+
+theorem Inv.int_iff_interior {cfg : Cfg} {g : GridB} (hi : Inv cfg g) {c : Cell} (hc : c ∈ g.cells) :
+    c.id ∈ qids g.internal ↔ c.border = false := hi.toBase.int_iff_interior hc
 
 end OmplModel.Grid
